@@ -112,7 +112,7 @@ class ManageSieveConnection:
     """
 
     _lines = re.compile(r'\r?\n')
-    _literal_plus = re.compile(br'{(\d{1,20})\+}\r?\n$')
+    _literal_plus = re.compile(br'{0*(\d{1,20})\+}\r?\n$')
     _impl = b'pymap managesieve ' + __version__.encode('ascii')
 
     def __init__(self, login: LoginInterface, config: IMAPConfig,
